@@ -52,14 +52,6 @@ pub mod ffi {
         let idx = idx.try_into().ok();
         match idx.and_then(|idx| this.get(idx)) {
             Some(src) => {
-                #[cfg(roto_verif)]
-                crate::verif::sched::point(
-                    crate::verif::sched::Event::PtrEscaped {
-                        list: std::sync::Arc::as_ptr(&this.0) as usize,
-                        addr: src.as_ptr() as usize,
-                    },
-                );
-
                 // We got a pointer into the list, clone it into out at the correct alignment
 
                 // To leave this value in a valid state even if a panic happens
@@ -81,14 +73,6 @@ pub mod ffi {
                 // by writing it to the next multiple of the alignment. The offset
                 // is therefore the correct byte offset.
                 let dst = unsafe { out.byte_add(offset) };
-
-                #[cfg(roto_verif)]
-                crate::verif::sched::point(
-                    crate::verif::sched::Event::PtrUse {
-                        list: std::sync::Arc::as_ptr(&this.0) as usize,
-                        addr: src.as_ptr() as usize,
-                    },
-                );
 
                 // If there is no clone function, we can optimize this by doing a memcpy.
                 match raw.vtable.clone_fn {
@@ -257,15 +241,6 @@ pub mod boundary {
         /// Get the element at index `idx`
         pub fn get(&self, idx: usize) -> Option<T> {
             let ptr = self.inner.get(idx)?;
-
-            #[cfg(roto_verif)]
-            {
-                use crate::verif::sched::{Event, point};
-                let list = Arc::as_ptr(&self.inner.0) as usize;
-                let addr = ptr.as_ptr() as usize;
-                point(Event::PtrEscaped { list, addr });
-                point(Event::PtrUse { list, addr });
-            }
 
             // SAFETY: The list has values of T::Transformed, which means that
             // this cast is valid.
